@@ -18,7 +18,7 @@ PROPERTY = "C03"
 RULE = ("Hypothesis draws 1-3 identity-encoding tomograms (voxel = t*10^6 + z*10^4 + y*100 + x) with 1-5 molecules each at "
         "distinct integer positions (uid, weight and key features), a construction route (single loader, BatchLoader "
         "via add_tomogram with explicit or automatic ids, from_loaders / add_loader), a history of <= 6 derivations "
-        "(filter, head, tail, sample, replace(molecules = sorted / permuted / interleaved), replace(order / "
+        "(filter, head, tail, sample, add_tomogram on the derived loader, replace(molecules = sorted / permuted / interleaved), replace(order / "
         "output_shape), binning bookkeeping, groupby + group filter/head/tail/sample + pick a group) and observations "
         "(asnumpy, load(i), apply, score, align, construct_landscape, group average / count / apply / align). A list of "
         "(image id, uid) rows is the model. Invariants: rows and image ids equal the model, the decoded centre voxel of "
@@ -235,6 +235,9 @@ def judge(d):
             elif name == "replace-params":
                 new = cur.replace(order=op["order"], output_shape=(3, 3, 3))
                 nm = list(cur_model)
+            elif name == "copy":
+                new = cur.copy()
+                nm = list(cur_model)
             elif name == "binning":
                 if binned:
                     continue
@@ -242,6 +245,42 @@ def judge(d):
                 nm = list(cur_model)
                 binned = True
                 d["_binned"] = True
+            elif name == "add_tomogram":
+                # extending a (derived) batch loader: documented to mutate that loader only
+                if not batch or binned or len(tomos) >= 6:
+                    continue
+                t_new = len(tomos)
+                tomos.append(make_tomo(t_new + 1))
+                taken = set(cur.images.keys())
+                new_rows = []
+                for j, pp in enumerate(op["pos"]):
+                    pos = tuple(4 + (c % 16) for c in pp)
+                    if pos in {r.pos for r in new_rows}:
+                        continue
+                    new_rows.append(Row(max(byuid) + 1 + len(new_rows), t_new, None, pos, float(((max(byuid) + 1 + j) * 37) % 101) + 0.5, j % 3))
+                explicit = op["explicit"]
+                iid = None
+                if explicit:
+                    iid = 50 + t_new
+                ret = cur.add_tomogram(tomos[t_new], mole_of(new_rows), image_id=iid)
+                if ret is not cur:
+                    out.append(viol("C03/add_tomogram-return", f"{tag}: add_tomogram did not return the loader"))
+                got_ids = cur.molecules.features["image-id"].to_list()[len(cur_model):]
+                if len(got_ids) != len(new_rows) or len(set(got_ids)) != 1:
+                    out.append(viol("C03/add_tomogram-rows", f"{tag}: new molecules carry image ids {got_ids}"))
+                    return out
+                new_id = got_ids[0]
+                if new_id in taken or (explicit and new_id != iid):
+                    out.append(viol("C03/image-id-collision", f"{tag}: the new tomogram was registered under image id {new_id!r}, "
+                                    f"ids already in use: {sorted(map(str, taken))} (explicit id: {iid})"))
+                    return out
+                for r in new_rows:
+                    r.image_id = new_id
+                    byuid[r.uid] = r
+                new = cur
+                nm = cur_model + new_rows
+                # the mutated loader's own snapshot is refreshed below; every other ancestor must be untouched
+                ancestors = [(a, sn, tg) for a, sn, tg in ancestors if a is not cur]
             elif name == "groupby":
                 grp = cur.groupby("k")
                 items1 = list(grp)
@@ -373,7 +412,7 @@ pos3 = st.lists(st.integers(0, 15), min_size=3, max_size=3)
 @st.composite
 def op_strategy(draw):
     name = draw(st.sampled_from(["filter", "head", "tail", "sample", "replace-sorted", "replace-sorted", "replace-perm", "replace-perm",
-                                 "replace-params", "binning", "groupby", "groupby"]))
+                                 "replace-params", "replace-params", "copy", "binning", "groupby", "groupby", "add_tomogram", "add_tomogram", "add_tomogram"]))
     op = {"op": name}
     if name == "filter":
         op.update(kind=draw(st.sampled_from(["w", "k", "image", "mask"])), thr=float(draw(st.integers(0, 100))), kv=draw(st.integers(0, 2)))
@@ -387,6 +426,8 @@ def op_strategy(draw):
         op.update(keys=draw(st.lists(st.integers(0, 9), min_size=1, max_size=12)))
     elif name == "replace-params":
         op.update(order=draw(st.sampled_from([0, 1])))
+    elif name == "add_tomogram":
+        op.update(pos=draw(st.lists(pos3, min_size=1, max_size=3)), explicit=draw(st.booleans()))
     elif name == "groupby":
         op.update(derive=draw(st.sampled_from(["head", "tail", "filter", "none"])), thr=float(draw(st.integers(0, 60))),
                   pick=draw(st.integers(0, 2)), galign=draw(st.booleans()))
@@ -418,5 +459,5 @@ def labels(d):
 
 def engines():
     return [Engine("history", judge, strategy=cases(), nontrivial=nontrivial, labels=labels,
-                   cases={"quick": 120, "thorough": 4000}, shards={"quick": 8, "thorough": 16},
+                   cases={"quick": 240, "thorough": 5000}, shards={"quick": 8, "thorough": 16},
                    shrink={"quick": True, "thorough": True})]
